@@ -658,7 +658,9 @@ static stamp_t
 __tai_offs(stamp_t t)
 {
 	/* difference of TAI and UTC at epoch instant */
-	zidx_t zi = leaps_before_si32(leaps_s, nleaps_corr, t);
+	/* the table is keyed by 32-bit stamps, everything beyond is after the last entry */
+	const int32_t k = t > INT32_MAX ? INT32_MAX : t < INT32_MIN ? INT32_MIN : (int32_t)t;
+	zidx_t zi = leaps_before_si32(leaps_s, nleaps_corr, k);
 
 	return leaps_corr[zi];
 }
